@@ -5,7 +5,9 @@ rationals; + one ulp for the final decimal-to-binary rounding)."""
 from fractions import Fraction
 from oracle_util import *
 
-RULE = ("coefficient vectors of length 0..8 (signs, +-1, 0, integers, dyadics, 1e+-21 scale, rounding-boundary values) and term "
+RULE = ("(hardening: exponents next to 1 and 0 at every distance, negative exponents x every precision, rounding carries x every "
+        "precision, lists of 9..257 coefficients / up to 60 terms, subnormal..largest magnitudes, precisions beyond 17, formatter "
+        "flags other than the precision [model comparison only], Term with a precision) coefficient vectors of length 0..8 (signs, +-1, 0, integers, dyadics, 1e+-21 scale, rounding-boundary values) and term "
         "lists with 0..4 variables and integer/negative/fractional exponents, through Display of SimplePolynomial / "
         "IntermediatePolynomial at precision None and 0..17, Display of Term, and LinearModel::to_polynomial_string; every "
         "printed text is parsed back by the real parser. Non-trivial = a printed text with at least one non-zero term that is "
@@ -80,12 +82,20 @@ def _cmp_terms(orig, back, prec, what):
     return None
 
 def oracle(req, impl):
-    r = req.split()
+    r, suffix = split_req(req)
     if " # " not in impl:
         return f"no parse-back: {impl}"
     text_part, back = impl.split(" # ", 1)
     text, _ = read_string(text_part.split(), 0)
     cmd = r[0]
+    # ` | fmt <flags> [<prec>]`: formatter flags other than the precision (sign, width, fill, alternate) are not part of
+    # the statement: those requests are compared with the model only.  flags 0 = a precision alone (Term requests).
+    term_prec = None
+    if suffix and suffix[0] == "fmt":
+        if int(suffix[1]) != 0:
+            return None
+        if len(suffix) > 2 and suffix[2] != "-":
+            term_prec = int(suffix[2])
     if cmd in ("ds", "dm"):
         if cmd == "ds":
             prec, cs = _parse_ds_req(r)
@@ -98,6 +108,14 @@ def oracle(req, impl):
         b = _back_simple(back)
         if b is None:
             return f"printed text {text!r} is rejected by the parser: {back}"
+        # the zero polynomial is printed as 0
+        if all(c == 0 for c in cs) and text != "0":
+            return f"the zero polynomial is printed as {text!r}, not as 0"
+        # the variable letter comes back (when the original names one and the printed text mentions it)
+        if cmd == "ds" and r[2] != "-" and any(c != 0 for c in cs[1:]):
+            bv = back.split()[1]
+            if bv != r[2]:
+                return f"{text!r}: variable {chr(int(r[2]))!r} read back as {bv if bv == '-' else chr(int(bv))!r}"
         m = max(len(cs), len(b))
         cs2 = cs + [Fraction(0)] * (m - len(cs)); b2 = b + [Fraction(0)] * (m - len(b))
         for k, (o, x) in enumerate(zip(cs2, b2)):
@@ -112,11 +130,13 @@ def oracle(req, impl):
             prec = None if r[1] == "-" else int(r[1])
             orig = _parse_inter_tokens(r[2:], frac_of_bits, True)
         else:
-            prec = None
+            prec = term_prec
             orig = _parse_inter_tokens(["1"] + r[1:], frac_of_bits, True)
         t = back.split()
         if t[:2] != ["ok", "I"]:
             return f"printed text {text!r} is rejected by the parser: {back}"
+        if cmd == "di" and not orig and text != "0":
+            return f"the zero polynomial is printed as {text!r}, not as 0"
         b = _parse_inter_tokens(t[2:], tok_frac, False)
         return _cmp_terms(orig, b, prec, repr(text))
     return None
@@ -129,5 +149,8 @@ def nontrivial(req, model):
     return any(c.isalpha() for c in text)
 
 def tag(req, model):
-    r = req.split()
-    return r[0] + ":" + ("prec" if len(r) > 1 and r[0] in ("ds", "di") and r[1] != "-" else "default")
+    r, suffix = split_req(req)
+    fl = ""
+    if suffix and suffix[0] == "fmt":
+        fl = ":flags" if int(suffix[1]) != 0 else (":termprec" if len(suffix) > 2 and suffix[2] != "-" else "")
+    return r[0] + ":" + ("prec" if len(r) > 1 and r[0] in ("ds", "di") and r[1] != "-" else "default") + fl
